@@ -184,6 +184,29 @@ def run(ck, prog):
                   msg="%s: a Variable is created but a path returns without binding it [%s]" % (b.path, b.where(i)))
     ck.floor("R05.5", "Variable::new sites", nv, 5)
 
+    # ---- R05.10 -------------------------------------------------------------------
+    # a declaration statement registers its symbol on every completed path (only a failing `?` on missing syntax leaves
+    # early): a "this name already exists" shortcut would leave later uses bound to an earlier declaration
+    ck.rule("R05.10", "every declaring construct registers its symbol on every completed path")
+    REG = re.compile(r"SymbolMap::add_(record|variable|defset|multiclass|defm|template_argument|record_field|anonymous_def|anonymous_defm)$|"
+                     r"Scopes::add_variable$")
+    nd = 0
+    for b in ide:
+        if b.parent or " as ide::index::Indexable>::index" not in b.path or "BangOperator" in b.path:
+            continue
+        regs = cfg.blocks_calling(b, lambda c: bool(REG.search(c)))
+        if not regs:
+            continue
+        nd += 1
+        leave = regs | cfg.blocks_calling(b, lambda c: c.endswith("::from_residual"))
+        pth = cfg.path_exists(b, 0, lambda x: b.term(x)["k"] == "return", avoid=leave, include_src=True)
+        if pth is not None:
+            pth = cfg.feasible_path_exists(b, 0, lambda x: b.term(x)["k"] == "return", avoid=leave, include_src=True)
+        ck.ob("R05.10", "registers:%s" % b.path, pth is None, "%s registers its symbol on every completed path" % b.path,
+              msg="%s can complete without registering the symbol it declares [%s]: uses after it resolve to an earlier "
+                  "declaration of the name (or to nothing)" % (b.path, b.where(pth[-2]) if pth and len(pth) > 1 else b.loc))
+    ck.floor("R05.10", "declaring constructs", nd, 10)
+
     # ---- R05.6 --------------------------------------------------------------------
     fl = prog.body("ide::index::scope::Scopes::find_local")
     ck.anchor(fl is not None, "Scopes::find_local not found")
